@@ -168,7 +168,7 @@ Print Assumptions C10_rollback_bare_errors.
    non-zero constants when both are given;  OPES: barrier >= 0, biasfactor > 1 or infinite, epsilon > 0, cutoff > 0,
    compression threshold 0 or within [0, cutoff];  metadynamics: positive hill weight, one width per variable, every width positive;
    shared ABF: outputFreq a multiple of sharedFreq (or sharedFreq 0);  ALB: halved update frequency >= 2, one center per
-   variable;  changing force constant: k >= 0 and targetNumSteps non-zero. *)
+   variable;  changing force constant: k >= 0, targetNumSteps non-zero, lambdaExponent >= 0. *)
 Theorem C10_accepted_configuration_invariants :
   (forall temp e, x_err (fst (colvarx_validate temp e)) = false -> colvarx_inv (snd (colvarx_validate temp e)) = true) /\
   (forall ws n e, (0 < n)%nat -> x_err (fst (walls_validate ws n e)) = false ->
@@ -189,7 +189,7 @@ Theorem C10_accepted_configuration_invariants :
      2 <= fst (snd (alb_validate n e)) /\ snd (snd (alb_validate n e)) = n) /\
   (forall rof e, x_err (fst (kmoving_validate rof e)) = false ->
      let s := snd (kmoving_validate rof e) in
-     Qle_bool Q0 (kx_k s) = true /\ (kx_changing s = true -> kx_nsteps s <> 0)).
+     Qle_bool Q0 (kx_k s) = true /\ (kx_changing s = true -> kx_nsteps s <> 0) /\ Qle_bool Q0 (kx_exp s) = true).
 Proof.
   exact (conj colvarx_accept (conj walls_accept (conj opesx_accept (conj metax_accept (conj abfshared_accept
         (conj alb_accept kmoving_accept)))))).
